@@ -45,7 +45,8 @@ OPTIMIZED_SHARDS = {"quick": 2, "thorough": 16}  # the same cases once more unde
 LEVEL_TEXT = (
     "All forests of up to 3 blocks with every kind assignment and every supplied-subset assignment over {D1, R1} (quick) / {D1, R1, SubD1} (thorough) are executed and "
     "probed at every position, plus seeded random programs up to 12 blocks over 8 types (defaultable, required, subclass, two specialisations of one generic) with duplicate "
-    "suppliers and disposable-yielded state. Every lookup (plain and with explicit default, in random order) is compared with the lexical reference."
+    "suppliers and disposable-yielded state. Every lookup (plain and with explicit default, in random order) is compared with the lexical reference; "
+    "completion callbacks (sync, async, callable objects; also of scopes built ahead of time) make the same lookups and are compared with the environment of the place that built the scope."
 )
 LEVEL_NOTE = "Trusted: the static environment-stack walk in hv/gen/programs.py (`expected`), the type family in hv/gen/family.py, VirtualLoop."
 
